@@ -53,6 +53,23 @@ func verifC05Unchanged(tag string, h *Header, s *verifC05Snap) {
 	}
 }
 
+// verifC05Value: values up to 17 bytes are fully symbolic; longer ones are
+// symbolic in their first two and last bytes and a fixed non-zero filler in
+// between (the filler only travels through copy, and a decoder that mis-frames
+// it then has a single path instead of one per filler byte).
+func verifC05Value(n int) []byte {
+	if n <= 17 {
+		return verifBytes("val", n)
+	}
+	v := make([]byte, n)
+	for i := range v {
+		v[i] = 0x5A
+	}
+	edge := verifBytes("val.edge", 3)
+	v[0], v[1], v[n-1] = edge[0], edge[1], edge[2]
+	return v
+}
+
 var verifC05Lens = []int{0, 1, 2, 4, 16, 17, 255, 256, 300}
 
 func VerifC05Sequence() {
@@ -77,12 +94,38 @@ func VerifC05Sequence() {
 		m.ids = append(m.ids, 0)
 		m.vals = append(m.vals, h.Extensions[0].payload)
 	}
-	nops := verifCase("nops", 1, verifBound("C05.maxops"))
+	// pre-populate 0..k entries with distinct in-profile ids (the ordered-map invariant),
+	// so that a short operation sequence starts from any reachable list
+	maxops := verifBound("C05.maxops")
+	if start == 1 || start == 2 {
+		npre := verifCase("pre", 0, verifBound("C05.maxpre"))
+		if npre > 0 {
+			maxops = verifBound("C05.maxops-pre")
+		}
+		for i := 0; i < npre; i++ {
+			id := verifU8("pre.id")
+			verifAssume(id >= 1)
+			if start == 1 {
+				verifAssume(id <= 14)
+			}
+			for _, o := range m.ids {
+				verifAssume(o != id)
+			}
+			val := verifBytes("pre.val", 1+i%2)
+			verifAssert("C05.pre-setup", h.SetExtension(id, val) == nil)
+			m.ids = append(m.ids, id)
+			m.vals = append(m.vals, val)
+		}
+		if npre == 3 {
+			verifCover("C05.pre3")
+		}
+	}
+	nops := verifCase("nops", 1, maxops)
 	for op := 0; op < nops; op++ {
 		snap := verifC05Snapshot(&h)
 		id := verifU8("id")
 		if verifCase("op", 0, 1) == 0 {
-			val := verifBytes("val", verifPick("vlen", verifC05Lens[:verifBound("C05.lenkinds")]))
+			val := verifC05Value(verifPick("vlen", verifC05Lens[:verifBound("C05.lenkinds")]))
 			err := h.SetExtension(id, val)
 			if err != nil {
 				verifC05Unchanged("C05.set-err-unchanged", &h, &snap)
